@@ -1,5 +1,5 @@
 """Per-property check procedures."""
-import json, os, re, subprocess, sys, glob
+import shutil, json, os, re, subprocess, sys, glob
 from vlib import (Run, ToolError, log, tlc_check, tlc_gen, run_vh, read_records, build_harness,
                   SPEC, MC, WORK, ROOT, VH)
 
@@ -354,7 +354,7 @@ def c12(run):
     run.rule = ("script Alias of spec/mc/MCLedger.tla: account/commodity declarations with aliases (including conflicting ones) in every "
                 "position among two transactions that use canonical names and aliases in postings, amounts, costs and assertions; each "
                 "accepted behaviour is also run with every alias replaced by its canonical name (two-run product check); query side (Ledger.tla Lookup): "
-                "every name of the final intern tables and one never-mentioned name is asked through ReportContext::account / ::commodity and "
+                "every name of the final intern tables is asked through ReportContext::account / ::commodity and "
                 "Ledger::eval(\"1 <name>\") and must answer with the specification's canonical name")
     run.assumptions += LEDGER_ASSUME + ["an alias declared for two canonical names silently keeps the first (the property is silent)",
                                         "the register's account filter compares the written name (it is documented to become a pattern); filtering by an alias is outside the claim",
@@ -670,6 +670,41 @@ def crash_only(rec, r, v):
     return v.get("kind")
 
 
+def cli_process_sample(run, nd, every=500):
+    """The process boundary (cli/src/bin/okane.rs: every Err becomes a message and exit status 1): the real binary on a
+    sample of the generated inputs; it must exit normally - never by a signal, with the panic status or not at all - and a
+    failure must come with a message."""
+    from vlib import okane_bin
+    binary = okane_bin()
+    d = os.path.join(WORK, "C06-cli-%d" % os.getpid())
+    os.makedirs(d, exist_ok=True)
+    path = os.path.join(d, "t.ledger")
+    recs = read_records(nd)
+    sample = [r for i, r in enumerate(recs) if i % every == 0 and len(r["text"]) < 5000]
+    n = 0
+    for rec in sample:
+        text = rec["text"].replace("\u27e6NUL\u27e7", "\x00").replace("\u27e6EMOJI\u27e7", "\U0001F600")
+        with open(path, "w", encoding="utf-8", newline="") as f:
+            f.write(text)
+        for args in (["format", path], ["balance", path], ["register", path], ["accounts", path]):
+            n += 1
+            try:
+                p = subprocess.run([binary] + args, stdout=subprocess.PIPE, stderr=subprocess.PIPE, timeout=20)
+                rc = p.returncode
+                err = p.stderr.decode("utf-8", "replace")
+            except subprocess.TimeoutExpired:
+                rc, err = "timeout", ""
+            # a signal (negative), Rust's panic status (101) or a hang; which non-zero status an error gets is not the property's business
+            crashed = rc == "timeout" or rc < 0 or rc == 101 or "panicked at" in err
+            if crashed or (rc != 0 and not err.strip()):
+                rec2 = dict(rec); rec2["_mode"] = "total"
+                what = "exit status %s" % rc if crashed else "a failure status without any message"
+                run.report("process_%s_%s" % (args[0], rc), rec2, {"command": args[0], "status": rc, "stderr": err[-600:]},
+                           "process boundary: `okane %s` ended with %s (an error must become a message and a normal exit)" % (args[0], what))
+    shutil.rmtree(d, ignore_errors=True)
+    run.extra["cli_process_runs"] = run.extra.get("cli_process_runs", 0) + n
+
+
 @check("C06")
 def c06(run):
     run.rule = ("spec/Totality.tla: from 469 valid texts (Syntax.tla's catalogue in four styles, two-entry files) one mutation: every prefix cut at "
@@ -682,8 +717,9 @@ def c06(run):
                 "Each input goes to parse_ledger, format, Loader::load + report::process + balance/eval, and every 10th to the CLI commands "
                 "format/balance/register/accounts/flatten/balance -X; non-trivial = inputs that do not parse or are rejected")
     run.assumptions += ["a panic is caught and reported; an abort (stack overflow) or an input exceeding the 5 s budget is attributed to its input by the runner",
+                        "the process boundary (main's error mapping: message + exit status 1) is exercised by the real binary on every 500th input",
                         "numbers stay within the representable range (huge literals are C07's)",
-                        "CLI commands run in-process through okane::cmd::Cli (main's error mapping is not exercised)",
+                        "the sampled CLI commands of every 10th input run in-process through okane::cmd::Cli",
                         "arbitrary Unicode is sampled through a finite awkward set, not enumerated"]
     nd, n, st = tlc_gen("MCTotality.tla", "Totality_quick.cfg", "C06-mut", workers=8, timeout=1700, dedup=True)
     st["scenario"] = "one mutation"
@@ -695,6 +731,7 @@ def c06(run):
         st["scenario"] = "mutation walks (simulation)"
         run.add_model(st)
         feed(run, "total", nd, key=lambda r: r["text"], nontrivial=hard)
+    cli_process_sample(run, nd)
     # the price database is a second input file: the same mutation machine over `P` lines
     nd, n, st = tlc_gen("MCTotality.tla", "Totality_price.cfg", "C06-price", workers=8, timeout=1700, dedup=True)
     st["scenario"] = "price database, one mutation"
